@@ -54,10 +54,19 @@ Definition is_leaf (n : node) : bool := match n with NSub _ _ => false | _ => tr
 
 Definition exec_leaf (stream : bool) (items : list item) (n : node) : nres :=
   match n with
-  | NLam _ f b => exec_lambda stream items f b
+  | NLam _ f b => with_post stream b (exec_lambda stream items f b)
   | NTools _ ts => exec_tools stream items ts
   | NSub _ _ => NFuel
   end.
+
+(* the pre-handlers of a step *)
+Lemma in_pre_fails : forall stream items st e, In e (pre_fails stream items st) ->
+  exists k f u, In (NLam k f (BPreFail u)) st /\ e = wrap_node k (Wrapf (pre_error stream items u)).
+Proof.
+  intros stream items st o H. unfold pre_fails in H. apply in_flat_map in H.
+  destruct H as [n [Hn Ho]]. destruct n as [k f b| |]; try contradiction.
+  destruct b; try contradiction. destruct Ho as [<-|[]]. exists k, f, e. split; auto.
+Qed.
 
 (* errors a graph's own loop makes: cancelled context, step limit, an error item met while the
    checkpoint of an interrupt is converted, a failing branch condition (or an error item met
@@ -78,6 +87,9 @@ Inductive reported (F : forest) (stream : bool) : graph -> err -> list string ->
     In st (g_stages g) -> In n st -> is_leaf n = true ->
     exec_leaf stream items n = NErr es -> In r es -> is_interrupt_task r = false ->
     reported F stream g (wrap_node (node_key n) r) [node_key n] r
+| rep_pre : forall g st k f u items,
+    In st (g_stages g) -> In (NLam k f (BPreFail u)) st ->
+    reported F stream g (wrap_node k (Wrapf (pre_error stream items u))) [k] (Wrapf (pre_error stream items u))
 | rep_sub_panic : forall g st k gi g' i,
     In st (g_stages g) -> In (NSub k gi) st -> nth_error F gi = Some g' ->
     reported F stream g (wrap_node k (PanicErr i)) [k] (PanicErr i)
@@ -119,6 +131,11 @@ Section RunProofs.
     - destruct cur as [|st rest]; cbn [steps] in Hrun; [discriminate|].
       destruct canc.
       { inversion Hrun; subst. destruct Hin as [<-|[]]. do 2 eexists. apply rep_graph. left. reflexivity. }
+      destruct (pre_fails stream items st) as [|pf0 pfs] eqn:Epf.
+      2:{ cbv beta iota in Hrun. destruct (pre_panic stream items); [discriminate|].
+          inversion Hrun; subst es. rewrite <- Epf in Hin.
+          apply in_pre_fails in Hin. destruct Hin as [k0 [f0 [u [Hn ->]]]].
+          eexists [k0], _. eapply rep_pre; eauto. apply Hincl. left. reflexivity. }
       rewrite stage_fold_spec in Hrun. cbn [orb app] in Hrun.
       set (rs := map (fun n => (node_key n, exec_node F stream rec items false n)) st) in *.
       destruct (any_fuel rs); [discriminate|].
@@ -169,11 +186,12 @@ Section RunProofs.
     In n st -> exec_node F stream rec items false n = NErr es' -> In e' es' ->
     is_interrupt_task e' = false ->
     any_fuel (map (fun n => (node_key n, exec_node F stream rec items false n)) st) = false ->
+    pre_fails stream items st = [] ->
     exists es, steps F stream rec all loop br (S k) (st :: rest) items false = GFail es /\
                In (wrap_node (node_key n) e') es.
   Proof.
-    intros rec all loop br k st rest items n es' e' Hn Hex He' Hni Hfuel.
-    cbn [steps]. rewrite stage_fold_spec. cbn [orb app]. rewrite Hfuel.
+    intros rec all loop br k st rest items n es' e' Hn Hex He' Hni Hfuel Hpre.
+    cbn [steps]. rewrite Hpre. rewrite stage_fold_spec. cbn [orb app]. rewrite Hfuel.
     set (rs := map (fun n => (node_key n, exec_node F stream rec items false n)) st) in *.
     assert (Hin : In (wrap_node (node_key n) e') (all_fails rs)).
     { apply in_all_fails. exists (node_key n), es', e'. repeat split; auto.
@@ -187,10 +205,11 @@ Section RunProofs.
   Lemma step_interrupts : forall rec all loop br k st rest items,
     let rs := map (fun n => (node_key n, exec_node F stream rec items false n)) st in
     any_fuel rs = false -> all_fails rs = [] -> any_int rs = true -> all_items rs = [] ->
+    pre_fails stream items st = [] ->
     steps F stream rec all loop br (S k) (st :: rest) items false = GInt.
   Proof.
-    intros rec all loop br k st rest items rs Hf Hfails Hint Hitems.
-    cbn [steps]. rewrite stage_fold_spec. cbn [orb app]. fold rs.
+    intros rec all loop br k st rest items rs Hf Hfails Hint Hitems Hpre.
+    cbn [steps]. rewrite Hpre. rewrite stage_fold_spec. cbn [orb app]. fold rs.
     rewrite Hf, Hfails, Hint. cbn [app]. rewrite Hitems. reflexivity.
   Qed.
 
@@ -210,6 +229,14 @@ Section RunProofs.
   Proof.
     intros rec n H. destruct n as [k f b| |]; try discriminate. destruct b; try discriminate.
     cbn [exec_node]. unfold exec_lambda. destruct stream, f; reflexivity.
+  Qed.
+
+  Lemma ok_pre_fails : forall items st, forallb ok_node st = true -> pre_fails stream items st = [].
+  Proof.
+    intros items st H. unfold pre_fails. induction st as [|n st IH]; [reflexivity|].
+    cbn [forallb] in H. apply andb_true_iff in H. destruct H as [Hn Hst].
+    cbn [flat_map]. rewrite (IH Hst), app_nil_r.
+    destruct n as [k f b| |]; try discriminate. destruct b; try discriminate. reflexivity.
   Qed.
 
   Lemma ok_stage_fold : forall rec st, forallb ok_node st = true ->
@@ -235,7 +262,7 @@ Section RunProofs.
     - destruct cur as [|st rest]; [contradiction|]. cbn [steps].
       assert (Hst : forallb ok_node st = true).
       { rewrite forallb_forall in Hok. apply Hok. apply Hincl. left. reflexivity. }
-      rewrite (ok_stage_fold rec st Hst). rewrite !fan_nil.
+      rewrite (ok_pre_fails [] st Hst). rewrite (ok_stage_fold rec st Hst). rewrite !fan_nil.
       destruct rest as [|st' rest'].
       + apply IH; [exact Hne|apply incl_refl].
       + apply IH; [discriminate|]. intros x Hx. apply Hincl. right. exact Hx.
@@ -387,10 +414,11 @@ Qed.
 Lemma panicking_node_fails_run : forall F stream rec all loop br k st rest key f i,
   In (NLam key f (BPanic i)) st ->
   any_fuel (map (fun n => (node_key n, exec_node F stream rec [] false n)) st) = false ->
+  pre_fails stream [] st = [] ->
   exists es e, steps F stream rec all loop br (S k) (st :: rest) [] false = GFail es /\ In e es /\
                as_panic e = Some i /\ np_of e = [key].
 Proof.
-  intros F stream rec all loop br k st rest key f i Hin Hfuel.
+  intros F stream rec all loop br k st rest key f i Hin Hfuel Hpre.
   destruct (step_reports_failure F stream rec all loop br k st rest [] (NLam key f (BPanic i)) [PanicErr i] (PanicErr i))
     as [es [Hrun He]]; auto.
   - cbn [exec_node]. apply lambda_panic_is_error.
@@ -402,9 +430,10 @@ Lemma panicking_tool_fails_run : forall F stream rec all loop br k st rest key t
   In (NTools key ts) st -> In (TPanic i) ts ->
   any_fuel (map (fun n => (node_key n, exec_node F stream rec [] false n)) st) = false ->
   (forall es e, exec_tools stream [] ts = NErr es -> In e es -> is_interrupt_task e = false) ->
+  pre_fails stream [] st = [] ->
   exists es, steps F stream rec all loop br (S k) (st :: rest) [] false = GFail es /\ es <> [].
 Proof.
-  intros F stream rec all loop br k st rest key ts i Hin Hp Hfuel Hni.
+  intros F stream rec all loop br k st rest key ts i Hin Hp Hfuel Hni Hpre.
   destruct (tool_panic_is_error stream ts i Hp) as [es' [Hex Hne]].
   destruct es' as [|e' es'']; [contradiction|].
   destruct (step_reports_failure F stream rec all loop br k st rest [] (NTools key ts) (e' :: es'') e')
